@@ -1,5 +1,6 @@
 import AgModel.Proofs.ProgressCluster
 import AgModel.Proofs.ProgressSkip
+import AgModel.Proofs.ClusterDec
 /-!
 # C02 — progress of the cluster of executable model nodes under timely delivery
 
@@ -328,5 +329,83 @@ theorem timely_progress (c : Cfg) (hpos : 0 < c.stakes.sum) (hi : Nat) (h60 : 3 
       · intro i hd; rw [run_append]; exact b2 i (a2 i hd)
       · intro b hb i hi'
         exact (b3 b hb i hi').append_right
+
+/-! ## non-vacuity, and the necessity of the hypotheses -/
+namespace Progress
+
+/-- a pool's answer, as a Boolean (for evaluation) -/
+def finB (st : State) (i s h : Nat) : Bool :=
+  match (st i).pool.getSlot s with
+  | none => false
+  | some a => (match a.cFf with | some x => x.hash == h | none => false) ||
+      (a.cFin.isSome && (match a.cNotar with | some x => x.hash == h | none => false))
+
+/-- every block's parent is the block with the same hash in the previous slot (genesis for slot 1); block `(8, 9)` is built on
+    `(3, 7)` (the window 4–7 in between is skipped) -/
+def par : Nat × Nat → Nat × Nat
+  | (8, 9) => (3, 7)
+  | (s + 1, h) => (s, if s = 0 then 0 else h)
+  | _ => (0, 0)
+
+/-- six validators with stakes 3, 1, 1, 1, 1, 2; the last one is Byzantine (2/9 > 20 %: the progress theorems do not need the
+    Byzantine bound, only the correct stake 7/9 ≥ 60 %; it is below 80 %: slow path) -/
+def c6 : Cfg := { stakes := [3, 1, 1, 1, 1, 2], correct := fun i => decide (i < 5), parentOf := par }
+
+/-- five validators with equal stake, one Byzantine: the correct stake is exactly 80 %: fast path -/
+def c5 : Cfg := { stakes := [1, 1, 1, 1, 1], correct := fun i => decide (i < 4), parentOf := par }
+
+/-- **Non-vacuity (slow path)**: the premises of `timely_finalization` hold for `c6` in the initial cluster; its conclusion,
+    for the five correct nodes — and the same computed by evaluation of the model -/
+example : ∀ i ∈ correctIds c6, PoolFinalized (run (init c6) (slotSched c6 (1, 7) (init c6))) i (Blk.mk' 1 7) :=
+  (first_block_finalized c6 (by decide) 7 rfl (by decide)).2.2.1
+
+example : correctIds c6 = [0, 1, 2, 3, 4] ∧
+    (List.range 5).all (fun i => finB (run (init c6) (slotSched c6 (1, 7) (init c6))) i 1 7) = true ∧
+    (List.range 5).all (fun i => finB (run (init c6) (fastSched c6 (1, 7) (init c6))) i 1 7) = false := by decide +kernel
+
+/-- **Non-vacuity (fast path)**: one voting round suffices for `c5` -/
+example : ∀ i ∈ correctIds c5, PoolFinalized (run (init c5) (fastSched c5 (1, 7) (init c5))) i (Blk.mk' 1 7) :=
+  (first_block_finalized c5 (by decide) 7 rfl (by decide)).2.2.2 (by decide)
+
+example : (List.range 4).all (fun i => finB (run (init c5) (fastSched c5 (1, 7) (init c5))) i 1 7) = true := by decide +kernel
+
+/-- **Non-vacuity (windows)**: the blocks of slots 1–3 (first window), the window 4–7 is skipped (silent leader), block `(8, 9)`
+    built on `(3, 7)`: the premises of `timely_progress` hold; all four blocks are finalized at every correct node -/
+def plan : Plan := [some [7, 7, 7], none, some [9]]
+
+theorem plan_ok : planOk c6 plan (0, 0) 1 ∧ (planEnd plan (0, 0) 1).2 = 9 ∧ planBlocks plan 1 = [(1, 7), (2, 7), (3, 7), (8, 9)] := by
+  refine ⟨⟨⟨rfl, rfl, rfl, trivial⟩, ⟨rfl, trivial⟩, trivial⟩, by decide, by decide⟩
+
+example : ∀ b ∈ [(1, 7), (2, 7), (3, 7), (8, 9)], ∀ i ∈ correctIds c6,
+    FinalizedDuring (init c6) (planSched c6 plan 1 (init c6)) i (Blk.mk' b.1 b.2) := by
+  have h := (timely_progress c6 (by decide) 100 (by decide) plan (0, 0) 1 (init c6) (by rw [plan_ok.2.1]; decide)
+    (init_ready c6 100 (by decide)) plan_ok.1).2.2.1
+  rw [plan_ok.2.2] at h
+  exact h
+
+/-- … and by evaluation: at the end every correct node's finality tracker has slot 8 as its highest finalized slot, and its
+    Votor is past slot 8 -/
+example : (List.range 5).all (fun i => (run (init c6) (planSched c6 plan 1 (init c6)) i).pool.fin.highest == 8 &&
+    (run (init c6) (planSched c6 plan 1 (init c6)) i).votor.hfcs == 8) = true := by decide +kernel
+
+/-- four correct validators with stakes 41, 20, 20, 19 -/
+def c4 : Cfg := { stakes := [41, 20, 20, 19], correct := fun _ => true, parentOf := par }
+
+/-- **No premature timeouts is necessary.** One correct validator with 41 % (> 40 %) of the stake times out in slot 1 *before*
+    the block arrives (it skips the window); then the timely schedule for block `(1, 7)` runs, and two more voting rounds. The
+    run is valid, all validators are correct and alive — and no pool ever reports `(1, 7)` finalized: the block has 59 % of the
+    notarization votes, the other three validators cast skip-fallback votes, slot 1 gets a skip certificate at every node. -/
+theorem premature_timeout_blocks_finalization :
+    let st0 := step (init c4) (0, .timeout 1)
+    let evs := slotSched c4 (1, 7) st0
+    let evs' := evs ++ round c4 1 (run st0 evs)
+    let evs'' := evs' ++ round c4 1 (run st0 evs')
+    Valid c4 (init c4) ((0, .timeout 1) :: evs'') ∧ 3 * c4.stakes.sum ≤ 5 * correctStake c4 ∧
+    (List.range 4).all (fun i => !(run st0 evs'' i).dead && !finB (run st0 evs) i 1 7 && !finB (run st0 evs') i 1 7 &&
+      !finB (run st0 evs'') i 1 7 &&
+      (match (run st0 evs'' i).pool.getSlot 1 with | some a => a.cSkip.isSome && a.cNotar.isNone | none => false)) = true := by
+  decide +kernel
+
+end Progress
 
 end AgModel.Cluster
